@@ -91,6 +91,7 @@ func runStream(r Round) *outcome {
 	defer cancel()
 	feed, rd := vkit.NewBufConnPair("10.1.0.1:1", "10.1.0.2:2")
 	sink, wr := vkit.NewBufConnPair("10.1.0.3:3", "10.1.0.4:4")
+	defer func() { feed.Close(); sink.Close(); rd.Close(); wr.Close() }()
 	reader := &cReader{c: rd}
 	writer := &gWriter{c: wr, gate: make(chan struct{}), closed: make(chan struct{})}
 	if r.p("writer") == 1 {
@@ -215,7 +216,7 @@ func runStream(r Round) *outcome {
 	rc2.guard("post-close-Close", func() { sp.Close() })
 	o.fails = append(o.fails, rc2.fails...)
 	if leaks != nil {
-		o.failf("C16/stream/goroutine-leak/"+leakKeyPart(leaks[0]), "goroutines remain after Close: %v", leaks)
+		o.failf("C16/stream/goroutine-leak/"+leakKeyPart(leaks[0]), "goroutines remain after Close: %s", leakMsg(leaks))
 	}
 	if readOK.Load() > 0 {
 		o.extraClass = append(o.extraClass, "packet-read-during-close")
